@@ -550,8 +550,11 @@ class SchedulingSolver(BaseModelWithJson):
                 # are busy "in the past", that is to say they
                 # should not be assigned to the related task
                 # for each interval
-                lower_bound, _ = req_res._busy_intervals[task]
-                resource_is_assigned = z3_sol[lower_bound].as_long() >= 0
+                lower_bound, upper_bound = req_res._busy_intervals[task]
+                resource_is_assigned = (
+                    z3_sol[lower_bound].as_long() >= 0
+                    and z3_sol[upper_bound].as_long() >= 0
+                )
                 # add this resource to assigned resources, anytime
                 if resource_is_assigned and (
                     req_res.name not in new_task_solution.assigned_resources
